@@ -57,6 +57,19 @@ type RunResult struct {
 	Interleave uint64           // hash of the switch sequence (0 = single task)
 	Pairs      []uint64
 	Tainted    bool // process state may be corrupted (aborted scheduler run): worker must exit
+	// Notes: observations of this run that must not depend on what the process
+	// did before the run (see historyProbe)
+	Notes []runNote
+}
+
+type runNote struct {
+	Label string `json:"label"`
+	JSON  string `json:"json"`
+}
+
+func (r *RunResult) note(label string, v any) {
+	b, _ := json.Marshal(v)
+	r.Notes = append(r.Notes, runNote{label, string(b)})
 }
 
 func (r *RunResult) count(k string, n int64) {
@@ -76,6 +89,9 @@ type Check struct {
 	Level       string
 	NeedsRace   bool // every run executes under the scheduler with the race detector
 	Isolated    bool // shrink candidates must run in fresh processes
+	// HistoryProbe: sampled runs are repeated in a fresh process and their notes
+	// compared: the run must not depend on the runs the worker executed before
+	HistoryProbe bool
 	Run         func(w *verifrt.World, tier Tier) *RunResult
 	Prepare     func(scratch string) error // parent-side set-up before workers start
 	Runs        [2]int // run budget per tier (total over all workers)
@@ -106,6 +122,10 @@ type ReplayFile struct {
 	Minimised   bool                `json:"minimised"`
 	ShrinkTries int                 `json:"shrink_tries"`
 	Note        string              `json:"note,omitempty"`
+	// Prelude: seeds of the runs that the same process executed before this one
+	// and that must be repeated first (only set when the violation depends on
+	// state that survives outside every WAF instance).
+	Prelude []uint64 `json:"prelude,omitempty"`
 }
 
 type foundViolation struct {
@@ -113,6 +133,9 @@ type foundViolation struct {
 	Seed  uint64              `json:"seed"`
 	Tapes map[string][]uint32 `json:"tapes"`
 	Count int                 `json:"count"`
+	Base  uint64              `json:"base"` // batch seed, worker index and run index: rs = Mix(Base, Idx<<40|K)
+	Idx   int                 `json:"idx"`
+	K     int                 `json:"k"`
 }
 
 type workerOut struct {
@@ -275,6 +298,9 @@ func workerMain(c *Check, tier Tier, seed uint64, idx, nworkers, runs int, maxSe
 		w := verifrt.NewWorld(rs)
 		res := execRun(c, w, tier)
 		out.Runs++
+		if c.HistoryProbe && probeHistoryAt(k) {
+			historyProbe(c, tier, rs, res, filepath.Dir(outPath), k)
+		}
 		if os.Getenv("VSIM_SELFCHECK") != "" {
 			// debugging aid: the same seed in a fresh process must record the same tapes
 			if ro, err := spawnReplay(c, tier, rs, nil, filepath.Dir(outPath)); err == nil {
@@ -314,7 +340,7 @@ func workerMain(c *Check, tier Tier, seed uint64, idx, nworkers, runs int, maxSe
 			if len(out.Found) >= 12 {
 				continue
 			}
-			out.Found[v.Fingerprint] = &foundViolation{V: v, Seed: rs, Tapes: w.Tapes(), Count: 1}
+			out.Found[v.Fingerprint] = &foundViolation{V: v, Seed: rs, Tapes: w.Tapes(), Count: 1, Base: seed, Idx: idx, K: k}
 		}
 		if res.Tainted {
 			// process state may be corrupted; stop this worker (the parent
@@ -349,9 +375,49 @@ type replayOut struct {
 	Viol     []*Violation        `json:"viol"`
 	Tapes    map[string][]uint32 `json:"tapes"`
 	Scenario any                 `json:"scenario"`
+	Notes    []runNote           `json:"notes,omitempty"`
 }
 
-func replayOnce(c *Check, tier Tier, seed uint64, tapes map[string][]uint32) *replayOut {
+// historyProbe repeats the run (same seed, recording mode) in a fresh process
+// and compares the notes.  A difference means that the outcome depends on what
+// this process executed before the run - state that survives outside every WAF
+// instance and that the per-run reset of the known process-wide tables (pattern
+// cache, transformation ids) does not cover.
+func historyProbe(c *Check, tier Tier, seed uint64, res *RunResult, scratch string, preceding int) {
+	res.count("history_probes", 1)
+	ro, err := spawnReplay(c, tier, seed, nil, scratch)
+	if err != nil {
+		res.count("history_probe_errors", 1)
+		return
+	}
+	n := len(res.Notes)
+	if len(ro.Notes) < n {
+		n = len(ro.Notes)
+	}
+	for i := 0; i < n; i++ {
+		a, b := res.Notes[i], ro.Notes[i]
+		if a.Label != b.Label || a.JSON != b.JSON {
+			kind := a.Label
+			if j := strings.IndexByte(kind, ':'); j >= 0 {
+				kind = kind[:j]
+			}
+			res.fail(c.ID, "depends-on-process-history", kind,
+				"the same scenario (seed %d) gives a different outcome in a process that executed %d other scenarios before it than in a fresh process; every scenario builds its own WAF instances, so the difference travels through state outside any WAF\nobservation %q\nin this process:   %s\nin a fresh process: %s",
+				seed, preceding, a.Label, clip(a.JSON, 4000), clip(b.JSON, 4000))
+			return
+		}
+	}
+	if len(res.Notes) != len(ro.Notes) {
+		res.fail(c.ID, "depends-on-process-history", "observations", "seed %d: %d observations in this process (after %d other scenarios), %d in a fresh process", seed, len(res.Notes), preceding, len(ro.Notes))
+	}
+}
+
+func probeHistoryAt(k int) bool { return k > 0 && (k&(k-1) == 0 || k%97 == 0) }
+
+func replayOnce(c *Check, tier Tier, seed uint64, tapes map[string][]uint32, prelude ...uint64) *replayOut {
+	for _, ps := range prelude {
+		execRun(c, verifrt.NewWorld(ps), tier)
+	}
 	var w *verifrt.World
 	if tapes == nil {
 		w = verifrt.NewWorld(seed)
@@ -359,12 +425,15 @@ func replayOnce(c *Check, tier Tier, seed uint64, tapes map[string][]uint32) *re
 		w = verifrt.NewReplayWorld(seed, tapes)
 	}
 	res := execRun(c, w, tier)
-	return &replayOut{Viol: res.Viol, Tapes: w.Tapes(), Scenario: res.Sample}
+	if len(prelude) > 0 && c.HistoryProbe {
+		historyProbe(c, tier, seed, res, os.Getenv("VSIM_SCRATCH"), len(prelude))
+	}
+	return &replayOut{Viol: res.Viol, Tapes: w.Tapes(), Scenario: res.Sample, Notes: res.Notes}
 }
 
 // spawnReplay runs `vsim replayjson` in a fresh process.
-func spawnReplay(c *Check, tier Tier, seed uint64, tapes map[string][]uint32, scratch string) (*replayOut, error) {
-	in, _ := json.Marshal(map[string]any{"seed": seed, "tapes": tapes})
+func spawnReplay(c *Check, tier Tier, seed uint64, tapes map[string][]uint32, scratch string, prelude ...uint64) (*replayOut, error) {
+	in, _ := json.Marshal(map[string]any{"seed": seed, "tapes": tapes, "prelude": prelude})
 	cmd := exec.Command(os.Args[0], "replayjson", c.ID, tier.String())
 	cmd.Stdin = bytes.NewReader(in)
 	var stdout, stderr bytes.Buffer
@@ -405,7 +474,7 @@ func workerEnv(scratch, tag string) []string {
 		lp := filepath.Join(scratch, "race."+tag)
 		out = append(out, "GORACE=halt_on_error=0 exitcode=0 history_size=3 log_path="+lp, "VSIM_RACELOG="+lp)
 	}
-	out = append(out, "TZ=UTC", "LANG=C")
+	out = append(out, "TZ=UTC", "LANG=C", "VSIM_SCRATCH="+scratch)
 	return out
 }
 
@@ -699,6 +768,35 @@ func parentMain(c *Check, tier Tier, seed uint64, nworkers int, evidencePath, re
 			cv = hasFP(ro.Viol, fp)
 		}
 		unconfirmedRace := false
+		var prelude []uint64
+		if cv == nil && f.V.Clause != "data-race" {
+			// The run alone does not show it: repeat, in a fresh process, the runs the
+			// worker executed before it (the last 1, 3, 7, ... of them). State that
+			// survives outside every WAF instance (a package-level cache or free list
+			// introduced by a change) makes a run depend on its predecessors in the
+			// process; that history is then part of the replay file.
+			for m := 1; cv == nil && f.K > 0; m = 2*m + 1 {
+				if m > f.K {
+					m = f.K
+				}
+				prelude = prelude[:0]
+				for j := f.K - m; j < f.K; j++ {
+					prelude = append(prelude, verifrt.Mix(f.Base, uint64(f.Idx)<<40|uint64(j)))
+				}
+				r2, err := spawnReplay(c, tier, f.Seed, f.Tapes, scratch, prelude...)
+				if err == nil {
+					if cv = hasFP(r2.Viol, fp); cv != nil {
+						ro = r2
+					}
+				}
+				if m == f.K {
+					break
+				}
+			}
+			if cv == nil {
+				prelude = nil
+			}
+		}
 		if cv == nil {
 			if f.V.Clause != "data-race" {
 				fmt.Fprintf(os.Stderr, "INFRASTRUCTURE: violation %s (seed %d) did not reproduce in a fresh process; first report:\n%s\n", fp, f.Seed, f.V.Detail)
@@ -724,11 +822,11 @@ func parentMain(c *Check, tier Tier, seed uint64, nworkers int, evidencePath, re
 		nviol++
 		tapes, tries := f.Tapes, 0
 		minimised := false
-		if nviol <= 3 && !unconfirmedRace {
+		if nviol <= 3 && !unconfirmedRace && prelude == nil {
 			tapes, tries = shrink(c, tier, f.Seed, f.Tapes, fp, scratch, budget)
 			minimised = true
 		}
-		fin, err := spawnReplay(c, tier, f.Seed, tapes, scratch)
+		fin, err := spawnReplay(c, tier, f.Seed, tapes, scratch, prelude...)
 		if err != nil || hasFP(fin.Viol, fp) == nil {
 			// minimised tape must reproduce; fall back to the original
 			tapes, fin, minimised = f.Tapes, ro, false
@@ -736,6 +834,10 @@ func parentMain(c *Check, tier Tier, seed uint64, nworkers int, evidencePath, re
 		v := hasFP(fin.Viol, fp)
 		rf := &ReplayFile{Property: c.ID, Tier: tier.String(), Seed: f.Seed, Fingerprint: fp, Clause: v.Clause, Detail: v.Detail,
 			Tapes: fin.Tapes, Scenario: fin.Scenario, Minimised: minimised, ShrinkTries: tries}
+		if prelude != nil {
+			rf.Prelude = append([]uint64(nil), prelude...)
+			rf.Note = fmt.Sprintf("reproduces only after the %d preceding runs of the same process (prelude): the outcome depends on state that survives outside every WAF instance", len(prelude))
+		}
 		if unconfirmedRace {
 			rf.Note = "the schedule replays exactly but the race detector did not repeat its report in 4 fresh processes (shadow-cell eviction); the original report is in detail"
 		}
